@@ -6,8 +6,8 @@ CFG = cfg('C19', extract='Ex_C19', driver='c19',
                'pub/priv lists, `in` and `with key()` for ~110 identifiers incl. blank variants and strangers, fingerprints() for the 9 '
                'filter combinations, len) is compared with the extracted model, and the property text is evaluated directly on the '
                'implementation against an independent book-keeping of what is loaded. Histories: every toggle history (load if absent '
-               'else unload) to depth 5 over 5 keys + depth 3 over 8 keys (quick) / depth 6 over 6, depth 7 over 5, depth 4 over 8 '
-               '(thorough), load form drawn from {object, binary, armored text, armored file, binary file} x {single, list, tuple, varargs}, '
+               'else unload) to depth 5 over 5 keys + depth 3 over 8 keys (quick) / depth 6 over 5, depth 7 over 4, depth 5 over 6, depth 4 '
+               'over 8 (thorough), load form drawn from {object, binary, armored text, armored file, binary file} x {single, list, tuple, varargs}, '
                'unload by object or through key(fingerprint with blanks / key id); random walks of 60 steps that also re-load loaded '
                'keys (serialised forms create second objects), load lists of 2-3 keys, unload absent keys and load / unload lone '
                'subkeys; selection by signature / signed message / encrypted message every 15 steps. distinct = distinct (suite, history)',
